@@ -127,14 +127,40 @@ def run(chk: common.Check):
                 ok, why = same(ref, r)
                 if not ok:
                     found.append(("depends-on-input-source", f"3SGB-subset given as {what} differs from the stream run: {why}", {"variant": what}))
+        # ---- the same path spelling with different content, in one process (overwritten file; same relative name in another directory)
+        d4 = tempfile.mkdtemp(dir="/var/tmp"); d5 = tempfile.mkdtemp(dir="/var/tmp"); tmpdirs += [d4, d5]
+        small = structures.read("sample-issue-140.pdb")
+        pth2 = os.path.join(d4, "protein.pdb")
+        open(os.path.join(d5, "protein.pdb"), "w").write(small)
+        open(pth2, "w").write(sub)
+        first = run_jobs([{"mode": "path", "path": pth2, "opts": []}])[0]
+        open(pth2, "w").write(small)
+        seq = run_jobs([{"mode": "path", "path": pth2, "opts": []}])         # fresh process, new content: reference
+        open(pth2, "w").write(sub)
+        spec_jobs = [{"mode": "path", "path": pth2, "opts": []}]
+        # one process: read content X under the path, then the harness cannot rewrite between jobs, so use two spellings that resolve differently:
+        # relative name in directory d4 (content X) then the same relative name in directory d5 (content Y)
+        both = run_jobs([{"mode": "path", "path": "protein.pdb", "opts": [], "cwd": d4}, {"mode": "path", "path": "protein.pdb", "opts": [], "cwd": d5}])
+        chk.count(2, key=("same-name-other-directory",))
+        ok1, why1 = same(first, both[0])
+        ok2, why2 = same(seq[0], both[1])
+        if not ok1 or not ok2:
+            found.append(("depends-on-earlier-runs:same-path-spelling", "running 'protein.pdb' in one directory and then 'protein.pdb' (different content) in another directory, in one process, "
+                          f"gives for the second a result different from a fresh process: {why2 or why1}", {"first": "3SGB-subset as protein.pdb", "second": "sample-issue-140 as protein.pdb"}))
         # ---- several inputs in one command-line invocation
         d3 = tempfile.mkdtemp(dir="/var/tmp"); tmpdirs.append(d3)
         open(os.path.join(d3, "a.pdb"), "w").write(sub)
         open(os.path.join(d3, "b.pdb"), "w").write(structures.read("sample-issue-140.pdb"))
+        open(os.path.join(d3, "c.pdb"), "w").write(sub)          # the same content as a.pdb under another name
         env = dict(os.environ, PYTHONPATH=str(common.REPO), PYTHONHASHSEED="0")
         outs = {}
-        for tag, args in (("together", ["-f", "a.pdb", "b.pdb"]), ("a alone", ["a.pdb"]), ("b alone", ["b.pdb"]), ("reversed", ["-f", "b.pdb", "a.pdb"])):
-            for f in ("a.pka", "b.pka"):
+        runs = [("together", ["-f", "a.pdb", "b.pdb"]), ("a alone", ["a.pdb"]), ("b alone", ["b.pdb"]), ("reversed", ["-f", "b.pdb", "a.pdb"])]
+        # the same with a titrate-only list naming residues of both inputs
+        ti = ["-i", "E:29,E:57,A:1,A:3,I:10"]
+        runs += [("a then c -i", ti + ["-f", "a.pdb", "c.pdb"]), ("c alone -i", ti + ["c.pdb"]),
+                 ("together -i", ti + ["-f", "a.pdb", "b.pdb"]), ("a alone -i", ti + ["a.pdb"]), ("b alone -i", ti + ["b.pdb"]), ("reversed -i", ti + ["-f", "b.pdb", "a.pdb"])]
+        for tag, args in runs:
+            for f in ("a.pka", "b.pka", "c.pka"):
                 if os.path.exists(os.path.join(d3, f)):
                     os.unlink(os.path.join(d3, f))
             p = subprocess.run([PY, "-m", "propka", "--quiet"] + args, cwd=d3, env=env, capture_output=True, text=True, timeout=600)
@@ -143,13 +169,17 @@ def run(chk: common.Check):
                 found.append(("cli-fails", f"python -m propka {args}: exit {p.returncode}: {p.stderr[-300:]}", {"args": args}))
                 continue
             from vlib.purejob import strip_date
-            outs[tag] = {f: strip_date(open(os.path.join(d3, f)).read()) for f in ("a.pka", "b.pka") if os.path.exists(os.path.join(d3, f))}
-        if outs.get("together") and outs.get("a alone") and outs.get("b alone"):
-            for f, solo in (("a.pka", "a alone"), ("b.pka", "b alone")):
-                for multi_tag in ("together", "reversed"):
+            outs[tag] = {f: strip_date(open(os.path.join(d3, f)).read()) for f in ("a.pka", "b.pka", "c.pka") if os.path.exists(os.path.join(d3, f))}
+        for sfx in ("", " -i"):
+          if outs.get("together" + sfx) and outs.get("a alone" + sfx) and outs.get("b alone" + sfx):
+            for f, solo in (("a.pka", "a alone" + sfx), ("b.pka", "b alone" + sfx)):
+                for multi_tag in ("together" + sfx, "reversed" + sfx):
                     if outs.get(multi_tag, {}).get(f) != outs[solo].get(f):
                         found.append(("depends-on-number-of-inputs", f"{f} written by one invocation with two inputs ({multi_tag}) differs from the invocation with that input alone",
                                       {"file": f, "invocation": multi_tag}))
+        if outs.get("a then c -i") and outs.get("c alone -i") and outs["a then c -i"].get("c.pka") != outs["c alone -i"].get("c.pka"):
+            found.append(("depends-on-number-of-inputs:titrate-only", "c.pka written by `-i <list> -f a.pdb c.pdb` differs from `-i <list> c.pdb` (a.pdb and c.pdb have the same content)",
+                          {"list": ti[1]}))
     finally:
         for p in cfgs:
             if os.path.exists(p):
